@@ -15,7 +15,8 @@ done
 key="$proc:$sig"
 ctl=${VERIF_CTL:-/nonexistent}
 log(){ [ -n "$VERIF_CMDLOG" ] && echo "$1 $EPOCHREALTIME $$ $key" >> "$VERIF_CMDLOG"; }
-ctlval(){ cat "$ctl/$key.$1" 2>/dev/null || cat "$ctl/$proc.$1" 2>/dev/null || cat "$ctl/ALL.$1" 2>/dev/null; }
+d1=""; [ ${#ins[@]} -gt 0 ] && d1=$(basename "$(dirname "${ins[0]}")")     # tasks with equally named inputs in different directories
+ctlval(){ cat "$ctl/$key@$d1.$1" 2>/dev/null || cat "$ctl/$key.$1" 2>/dev/null || cat "$ctl/$proc.$1" 2>/dev/null || cat "$ctl/ALL.$1" 2>/dev/null; }
 log S
 # what bash was really asked to execute for this task (independent of what scipipe recorded)
 [ -n "$VERIF_CMDLOG" ] && echo "C 0 $$ $key $(tr '\0' ' ' < /proc/$PPID/cmdline | base64 -w0)" >> "$VERIF_CMDLOG"
